@@ -1,7 +1,7 @@
 /-
   C13: the children of a Description, simple elements and array properties mixed, in any order.
 -/
-import Imeta.Lemmas.XmpDesc
+import Imeta.Lemmas.XmpSeqAttr
 namespace Imeta.Xmp
 open Imeta Imeta.Props.C13
 
@@ -9,21 +9,26 @@ open Imeta Imeta.Props.C13
 inductive Child where
   | elem (e : Elem)
   | arr (P A : Name) (ws1 wsE ws2 : Bytes) (l : List (Bytes × Elem))
+  /-- an array whose items may carry attributes (`<rdf:li xml:lang="x-default">`: the Alt arrays of dc:title, dc:rights, dc:description) -/
+  | arrA (P A : Name) (ws1 wsE ws2 : Bytes) (l : List (Bytes × List (Bytes × Attr) × Elem))
 
 /-- the child as written, followed by R -/
 def Child.ser : Child → Bytes → Bytes
   | .elem e, R => e.bytes ++ R
   | .arr P A ws1 wsE ws2 l, R => P.openT (ws1 ++ A.openT (serE l ++ (wsE ++ A.closeT (ws2 ++ P.closeT R))))
+  | .arrA P A ws1 wsE ws2 l, R => P.openT (ws1 ++ A.openT (serIA l ++ (wsE ++ A.closeT (ws2 ++ P.closeT R))))
 
 /-- the tokens it must produce (newest first) -/
 def Child.push (parent : Prop2) : Child → List Tok → List Tok
   | .elem e, acc => { pt := 2, parent := parent, self := e.prop, val := e.v } :: acc
   | .arr P A _ _ _ l, acc => pushI { t := .start, parent := P.prop, self := A.prop } l acc
+  | .arrA P A _ _ _ l, acc => pushIA { t := .start, parent := P.prop, self := A.prop } l acc
 
 /-- the rounds of fuel its nesting needs -/
 def Child.need : Child → Nat
   | .elem _ => 1
   | .arr _ _ _ _ _ l => 2 + 2 * l.length
+  | .arrA _ _ _ _ _ l => 2 + 2 * l.length
 
 def Child.OK : Child → Prop
   | .elem e => e.OK
@@ -33,6 +38,13 @@ def Child.OK : Child → Prop
     (P.prop == rdfSeq || P.prop == rdfAlt || P.prop == rdfBag) = false ∧ (P.prop == rootProp) = false ∧
     (A.prop == rdfSeq || A.prop == rdfAlt || A.prop == rdfBag) = true ∧
     (∀ p ∈ l, (∀ x ∈ p.1, (x == 60) = false) ∧ p.1.length + 128 ≤ W ∧ p.2.Item ∧ (p.2.prop == A.prop) = false)
+  | .arrA P A ws1 wsE ws2 l =>
+    P.OK ∧ A.OK ∧ (∀ x ∈ ws1, isWs x = true) ∧ ws1.length < 512 ∧
+    (∀ x ∈ wsE, (x == 60) = false) ∧ wsE.length + 128 ≤ W ∧ (∀ x ∈ ws2, (x == 60) = false) ∧ ws2.length + 128 ≤ W ∧
+    (P.prop == rdfSeq || P.prop == rdfAlt || P.prop == rdfBag) = false ∧ (P.prop == rootProp) = false ∧
+    (A.prop == rdfSeq || A.prop == rdfAlt || A.prop == rdfBag) = true ∧
+    (∀ p ∈ l, (∀ x ∈ p.1, (x == 60) = false) ∧ p.1.length + 128 ≤ W ∧ p.2.2.Item ∧ (p.2.2.prop == A.prop) = false ∧
+      (∀ q ∈ p.2.1, (∀ x ∈ q.1, isWs x = true) ∧ q.1 ≠ [] ∧ q.2.OK))
 
 /-- one child = one round of readTag -/
 theorem readTag_child_exact (parent : Tag) (st : St) (ws : Bytes) (c : Child) (R : Bytes) (F : Nat)
@@ -46,6 +58,13 @@ theorem readTag_child_exact (parent : Tag) (st : St) (ws : Bytes) (c : Child) (R
     obtain ⟨f, rfl⟩ : ∃ f, F = f + 2 + 2 * l.length := ⟨F - (2 + 2 * l.length), by simp [Child.need] at hF; omega⟩
     obtain ⟨hP, hA, h1, h1w, hE, hEw, h2, h2w, hPs, hPr, hAs, hl⟩ := ok
     have := readTag_array_exact parent st P A ws ws1 wsE ws2 R l f (by rw [hr]; rfl) hP hA hws hwin h1 h1w hE hEw h2 h2w hPs hPr hAs hl
+    have e1 : f + 2 + 2 * l.length + 1 = f + 3 + 2 * l.length := by omega
+    rw [e1, this]
+    rfl
+  | arrA P A ws1 wsE ws2 l =>
+    obtain ⟨f, rfl⟩ : ∃ f, F = f + 2 + 2 * l.length := ⟨F - (2 + 2 * l.length), by simp [Child.need] at hF; omega⟩
+    obtain ⟨hP, hA, h1, h1w, hE, hEw, h2, h2w, hPs, hPr, hAs, hl⟩ := ok
+    have := readTag_arrayA_exact parent st P A ws ws1 wsE ws2 R l f (by rw [hr]; rfl) hP hA hws hwin h1 h1w hE hEw h2 h2w hPs hPr hAs hl
     have e1 : f + 2 + 2 * l.length + 1 = f + 3 + 2 * l.length := by omega
     rw [e1, this]
     rfl
